@@ -115,6 +115,23 @@ func (s *stubVecField) Dims() int                                        { retur
 func (s *stubVecField) Similarity() string                               { return s.vec.Metric }
 func (s *stubVecField) IndexOptimizedFor() string                        { return s.vec.Opt }
 
+// stubGeoField implements index.GeoShapeField on top of a text field.
+type stubGeoField struct {
+	*stubField
+	shape []byte
+}
+
+func (s *stubGeoField) GeoShape() (index.GeoJSON, error) { return nil, nil }
+func (s *stubGeoField) EncodedShape() []byte              { return s.shape }
+
+func textOrGeoField(f *spec.FieldSpec) index.Field {
+	tf := textField(f)
+	if f.Shape != nil {
+		return &stubGeoField{stubField: tf, shape: append([]byte(nil), f.Shape...)}
+	}
+	return tf
+}
+
 func textField(f *spec.FieldSpec) *stubField {
 	opts := index.IndexField
 	if f.Stored {
@@ -185,7 +202,7 @@ func Doc(d *spec.DocSpec) index.Document {
 		case spec.KindVec:
 			sd.fields = append(sd.fields, &stubVecField{name: f.Name, vec: *f.Vec})
 		default:
-			sd.fields = append(sd.fields, textField(f))
+			sd.fields = append(sd.fields, textOrGeoField(f))
 		}
 	}
 	if syn {
